@@ -4,8 +4,12 @@ CONSTANTS TypeName, SeqMax
 
 AllVals   == MinV..MaxV
 I8Min     == -128
-\* char: code points within 6 of the anchors 0, 0xD7FF | 0xE000, 0x10FFFF
+\* char: code points within 6 of the anchors 0, 0xD7FF | 0xE000, 0x10FFFF ...
+\* ... and within 3 of the UTF-8 width boundaries (0x7F|0x80, 0x7FF|0x800, 0xFFFF|0x10000) and of the
+\* surrogate look-alikes of the supplementary planes (0x1D7FF|0x1D800, 0x10D7FF|0x10D800), where only a
+\* 16-bit view of the code point sees a gap
 CharNear  == (0..6) \cup (55289..55295) \cup (57344..57350) \cup (1114105..1114111)
+               \cup (125..130) \cup (2045..2050) \cup (65533..65538) \cup (120829..120834) \cup (1103869..1103874)
 
 \* expected complete sequence (ascending) when at most SeqMax values remain
 Small == ~Remaining.empty /\ Remaining.hi - Remaining.lo <= 2048 + SeqMax
